@@ -302,27 +302,38 @@ class BasilispImporter(  # type: ignore[misc]  # pylint: disable=abstract-method
         self._cache[spec.name] = {"spec": spec}
         return mod
 
-    def _exec_cached_module(
+    def _get_cached_code(
         self,
         fullname: str,
         loader_state: Mapping[str, str],
         path_stats: Mapping[str, int],
+    ) -> list[types.CodeType]:
+        """Read and validate the cached bytecode of a Basilisp module.
+
+        Raise `EOFError`, `ImportError` or `OSError` if there is no valid cache."""
+        cache_filename = loader_state["cache_filename"]
+
+        logger.debug(f"Checking for cached Basilisp module '{fullname}''")
+        cache_data = self.get_data(cache_filename)
+        return _get_basilisp_bytecode(
+            fullname, path_stats["mtime"], path_stats["size"], cache_data
+        )
+
+    def _exec_cached_module(
+        self,
+        fullname: str,
+        loader_state: Mapping[str, str],
+        cached_code: list[types.CodeType],
         module: BasilispModule,
     ) -> None:
-        """Load and execute a cached Basilisp module."""
+        """Execute the (already validated) cached code of a Basilisp module."""
         filename = loader_state["filename"]
-        cache_filename = loader_state["cache_filename"]
 
         with timed(
             lambda duration: logger.debug(
                 f"Loaded cached Basilisp module '{fullname}' in {duration / 1000000}ms"
             )
         ):
-            logger.debug(f"Checking for cached Basilisp module '{fullname}''")
-            cache_data = self.get_data(cache_filename)
-            cached_code = _get_basilisp_bytecode(
-                fullname, path_stats["mtime"], path_stats["size"], cache_data
-            )
             compiler.compile_bytecode(
                 cached_code,
                 compiler.GeneratorContext(
@@ -420,13 +431,20 @@ class BasilispImporter(  # type: ignore[misc]  # pylint: disable=abstract-method
             if os.getenv(_NO_CACHE_ENVVAR, "").lower() == "true":
                 self._exec_module(fullname, spec.loader_state, path_stats, module)
             else:
+                # Only reading and validating the cache may fall back to the source. The
+                # cached code itself runs outside of the `try`: if one of its forms raises
+                # e.g. an OSError, earlier forms have already run and must not run again.
                 try:
-                    self._exec_cached_module(
-                        fullname, spec.loader_state, path_stats, module
+                    cached_code = self._get_cached_code(
+                        fullname, spec.loader_state, path_stats
                     )
                 except (EOFError, ImportError, OSError) as e:
                     logger.debug(f"Failed to load cached Basilisp module: {e}")
                     self._exec_module(fullname, spec.loader_state, path_stats, module)
+                else:
+                    self._exec_cached_module(
+                        fullname, spec.loader_state, cached_code, module
+                    )
 
 
 def hook_imports() -> None:
